@@ -328,6 +328,18 @@ func ruleResourcePairing(c *eng.Ctx) {
 			continue
 		}
 		tested, cleared := false, false
+		// the clearing store may sit in a helper of the same package (e.releaseOwnership())
+		for _, h := range eng.Cluster(fn, 2)[1:] {
+			eng.Instrs(h, false, func(in ssa.Instruction) {
+				if x, ok := in.(*ssa.Store); ok {
+					if fr, ok := eng.AsField(x.Addr); ok && fr.Field == spec.field {
+						if cst, ok := x.Val.(*ssa.Const); ok && (cst.Value == nil || cst.Value.ExactString() == "false") {
+							cleared = true
+						}
+					}
+				}
+			})
+		}
 		eng.Instrs(fn, false, func(in ssa.Instruction) {
 			switch x := in.(type) {
 			case *ssa.Store:
